@@ -28,7 +28,7 @@ struct GuardHarness : HarnessBase {
 	G &g(int a) { return *reinterpret_cast<G *>(store[a]); }
 	int holders(int mi) { int c = 0; for(auto &r : ref) if(r.alive && r.locked && r.mtx == mi) c++; return c; }
 	int count(int mi) { return Shared ? m[mi].shared : m[mi].excl; }
-	void reset() { pending().reset(); for(auto &x : m) x = CMutex{}; for(auto &r : ref) r = M{}; memset(store, 0, sizeof store); }
+	void reset() { pending().reset(); for(auto &x : m) x = CMutex{}; for(auto &r : ref) r = M{}; memset(store, 0xA5, sizeof store); }
 	enum { C_LOCKING, C_DEFER, C_ADOPT, C_DEFAULT, LOCK, UNLOCK, MOVE_CONS, MOVE_ASSIGN, SWAP, DESTROY };
 	void ops(std::vector<uint32_t> &out) {
 		for(uint32_t a = 0; a < NS; a++) {
@@ -57,7 +57,7 @@ struct GuardHarness : HarnessBase {
 		case C_LOCKING: if constexpr(!Shared) { if(b == 1) { new(store[a]) G(frg::guard(&m[b])); ref[a] = {true, (int)b, true}; break; } } new(store[a]) G(m[b]); ref[a] = {true, (int)b, true}; break;
 		case C_DEFER: if constexpr(!Shared) { if(b == 1) { new(store[a]) G(frg::guard(frg::dont_lock, &m[b])); ref[a] = {true, (int)b, false}; break; } } new(store[a]) G(frg::dont_lock, m[b]); ref[a] = {true, (int)b, false}; break;
 		case C_ADOPT: if(Shared) m[b].lock_shared(); else m[b].lock(); new(store[a]) G(frg::adopt_lock, m[b]); ref[a] = {true, (int)b, true}; break;
-		case C_DEFAULT: new(store[a]) G(); ref[a] = {true, -1, false}; break;
+		case C_DEFAULT: new(store[a]) G; ref[a] = {true, -1, false}; break;
 		case LOCK: g(a).lock(); ref[a].locked = true; break;
 		case UNLOCK: g(a).unlock(); ref[a].locked = false; break;
 		case MOVE_CONS: new(store[a]) G(std::move(g(b))); ref[a] = ref[b]; ref[b] = {true, -1, false}; break;
